@@ -101,6 +101,14 @@ func (e *connStatus) SwapWithoutLock(state connStatusValue) (old connStatusValue
 	return
 }
 
+// wake makes the waiters look at their contexts again. The broadcast is made with the lock held: a waiter tests its
+// context and then calls Wait under that lock, so a broadcast made without it could fall between the two and be lost.
+func (e *connStatus) wake() {
+	e.Lock()
+	e.cond.Broadcast()
+	e.Unlock()
+}
+
 func (e *connStatus) Is(state connStatusValue) bool {
 	e.Lock()
 	defer e.Unlock()
